@@ -408,6 +408,9 @@ func (x *c21wCase) step(op string) string {
 		}
 		k %= len(x.open)
 		s := x.open[k]
+		if t[2] == "s" && x.finned[s.id] {
+			t[2] = "r" // the peer already finished its direction: this is an ordinary read-side close
+		}
 		if t[2] == "s" {
 			// the application stops reading while the peer has NOT finished its direction
 			// (STOP_SENDING goes out): the stream is not closed by this
